@@ -6,8 +6,12 @@ From Snow Require Import Lib.Wire Model.Base64 Model.Armor Proofs.Base64Proofs P
 Import ListNotations.
 Open Scope N_scope.
 
-Definition mk (m : mode) (n : N) (a : bool) (o : bytes) : dst :=
-  {| md := m; cnt := n; active := a; out_rev := o |}.
+(* the automaton's state outside an error: tokenizer (mode, count, data of the text token being read),
+   inside pre?, words written so far *)
+Definition mkb (m : mode) (n : N) (tb : bytes) (a : bool) (o : list bytes) : dst :=
+  {| tkz := tk m n tb; active := a; out_rev := o; halt := None |}.
+Definition mk (m : mode) (n : N) (a : bool) (o : list bytes) : dst := mkb m n [] a o.
+Definition st (t : tks) (a : bool) (o : list bytes) : dst := {| tkz := t; active := a; out_rev := o; halt := None |}.
 
 Definition strip (t : bytes) : bytes := filter (fun c => negb (isws c)) t.
 Definition noLT (t : bytes) : Prop := Forall (fun c => c <> LT) t.
@@ -24,134 +28,274 @@ Proof. intros. unfold run. apply fold_left_app. Qed.
 Lemma run_cons : forall s c l, run s (c :: l) = run (step s c) l.
 Proof. reflexivity. Qed.
 
-Lemma emit_spec : forall t a o, emit a t o = if a then rev (strip t) ++ o else o.
+Lemma strip_app : forall a b, strip (a ++ b) = strip a ++ strip b.
+Proof. intros. unfold strip. apply filter_app. Qed.
+
+(* ---- the word splitter ---- *)
+Lemma words_aux_concat : forall l cur, List.concat (words_aux l cur) = rev cur ++ strip l.
 Proof.
-  induction t as [|c t IH]; intros a o.
-  - destruct a; reflexivity.
-  - cbn [emit]. rewrite IH. destruct a; [|reflexivity].
-    unfold emit1. cbn [andb strip filter]. fold (strip t).
-    destruct (negb (isws c)); [|reflexivity].
-    cbn [rev]. rewrite <- app_assoc. reflexivity.
+  induction l as [|c l IH]; intros cur.
+  - cbn [words_aux strip filter]. rewrite app_nil_r. destruct cur; [reflexivity|].
+    cbn [List.concat]. rewrite rev_append_rev, !app_nil_r. reflexivity.
+  - cbn [words_aux strip filter]. fold (strip l). destruct (isws c) eqn:E; cbn [negb].
+    + destruct cur as [|x cur]; [rewrite IH; reflexivity|].
+      cbn [List.concat]. rewrite IH. rewrite rev_append_rev, app_nil_r. reflexivity.
+    + rewrite IH. cbn [rev]. rewrite <- app_assoc. reflexivity.
 Qed.
 
-Lemma step_txt : forall n a o c, n + 1 < MAXBUF -> c <> LT ->
-  step (mk MTxt n a o) c = mk MTxt (n + 1) a (emit1 a c o).
+Lemma words_concat : forall l, List.concat (words l) = strip l.
+Proof. intros. unfold words. rewrite words_aux_concat. reflexivity. Qed.
+
+Lemma words_aux_len : forall l cur, Forall (fun w => (List.length w <= List.length cur + List.length l)%nat) (words_aux l cur).
 Proof.
-  intros n a o c Hn Hc. unfold step, mk. cbn [md cnt active out_rev].
+  induction l as [|c l IH]; intros cur.
+  - cbn [words_aux]. destruct cur; [constructor|]. constructor; [|constructor].
+    rewrite rev_append_rev, app_nil_r, rev_length. cbn [List.length]. lia.
+  - cbn [words_aux]. destruct (isws c).
+    + destruct cur as [|x cur].
+      * eapply Forall_impl; [|apply IH]. cbv beta. cbn [List.length]. intros; lia.
+      * constructor.
+        -- rewrite rev_append_rev, app_nil_r, rev_length. cbn [List.length]. lia.
+        -- eapply Forall_impl; [|apply IH]. cbv beta. cbn [List.length]. intros; lia.
+    + eapply Forall_impl; [|apply IH]. cbv beta. cbn [List.length]. intros; lia.
+Qed.
+
+Lemma words_len : forall l, Forall (fun w => (List.length w <= List.length l)%nat) (words l).
+Proof. intros. unfold words. apply (words_aux_len l []). Qed.
+
+Lemma cut_long_short : forall ws, Forall (fun w => N.of_nat (List.length w) < TOOLONG) ws -> cut_long ws = (ws, false).
+Proof.
+  induction 1 as [|w ws Hw Hr IH]; [reflexivity|]. cbn [cut_long].
+  replace (TOOLONG <=? N.of_nat (List.length w)) with false by (symmetry; apply N.leb_gt; exact Hw).
+  rewrite IH. reflexivity.
+Qed.
+
+(* ---- Text() on text without CR, NUL, '&' is the identity ---- *)
+Definition plain (t : bytes) : Prop := Forall (fun c => c <> AMP /\ c <> 13) t.
+
+Lemma conv_nl_plain : forall t, Forall (fun c => c <> 13) t -> conv_nl t = t.
+Proof.
+  induction 1 as [|c t Hc Ht IH]; [reflexivity|]. cbn [conv_nl].
+  replace (c =? 13) with false by (symmetry; apply N.eqb_neq; exact Hc). rewrite IH. reflexivity.
+Qed.
+Lemma unesc_plain : forall t, Forall (fun c => c <> AMP) t -> unesc O t = t.
+Proof.
+  induction 1 as [|c t Hc Ht IH]; [reflexivity|]. cbn [unesc].
+  replace (c =? AMP) with false by (symmetry; apply N.eqb_neq; exact Hc). rewrite IH. reflexivity.
+Qed.
+
+(* convertNewlines only rewrites whitespace into whitespace *)
+Lemma strip_cons : forall c l, strip (c :: l) = if isws c then strip l else c :: strip l.
+Proof. intros. unfold strip. cbn [filter]. destruct (isws c); reflexivity. Qed.
+
+Lemma strip_conv_nl : forall t, strip (conv_nl t) = strip t.
+Proof.
+  assert (H : forall t, strip (conv_nl t) = strip t /\ forall c, strip (conv_nl (c :: t)) = strip (c :: t)).
+  { induction t as [|c2 t [IH1 IH2]].
+    - split; [reflexivity|]. intros c. cbn [conv_nl]. destruct (N.eqb_spec c 13) as [->|]; reflexivity.
+    - split; [apply IH2|]. intros c.
+      assert (E : conv_nl (c :: c2 :: t) =
+                  if c =? 13 then 10 :: (if c2 =? 10 then conv_nl t else conv_nl (c2 :: t)) else c :: conv_nl (c2 :: t))
+        by reflexivity.
+      rewrite E. clear E. destruct (N.eqb_spec c 13) as [->|Hc]; cbv iota.
+      + rewrite (strip_cons 10), (strip_cons 13). change (isws 10) with true. change (isws 13) with true. cbv iota.
+        destruct (N.eqb_spec c2 10) as [->|H10].
+        * rewrite (strip_cons 10). change (isws 10) with true. cbv iota. exact IH1.
+        * apply IH2.
+      + rewrite (strip_cons c (conv_nl (c2 :: t))), (strip_cons c (c2 :: t)), IH2. reflexivity. }
+  intros t. apply H.
+Qed.
+Lemma conv_nl_eq1 : forall c, conv_nl [c] = if c =? 13 then [10] else [c].
+Proof. reflexivity. Qed.
+Lemma conv_nl_eq2 : forall c c2 t, conv_nl (c :: c2 :: t) =
+  if c =? 13 then 10 :: (if c2 =? 10 then conv_nl t else conv_nl (c2 :: t)) else c :: conv_nl (c2 :: t).
+Proof. reflexivity. Qed.
+
+Lemma conv_nl_noamp : forall t, Forall (fun c => c <> AMP) t -> Forall (fun c => c <> AMP) (conv_nl t).
+Proof.
+  assert (H : forall t, Forall (fun c => c <> AMP) t ->
+              Forall (fun c => c <> AMP) (conv_nl t) /\ forall c, c <> AMP -> Forall (fun c => c <> AMP) (conv_nl (c :: t))).
+  { induction t as [|c2 t IH]; intros Ht.
+    - split; [constructor|]. intros c Hc. rewrite conv_nl_eq1. destruct (c =? 13); (constructor; [|constructor]); [discriminate|exact Hc].
+    - inversion Ht as [|? ? H2 Ht']; subst. destruct (IH Ht') as [IH1 IH2].
+      split; [apply IH2; exact H2|]. intros c Hc. rewrite conv_nl_eq2. destruct (c =? 13).
+      + constructor; [discriminate|]. destruct (c2 =? 10); [exact IH1|apply IH2; exact H2].
+      + constructor; [exact Hc|apply IH2; exact H2]. }
+  intros t Ht. apply (H t Ht).
+Qed.
+Lemma conv_nl_len : forall t, (List.length (conv_nl t) <= List.length t)%nat.
+Proof.
+  assert (H : forall t, (List.length (conv_nl t) <= List.length t)%nat /\
+                        forall c, (List.length (conv_nl (c :: t)) <= S (List.length t))%nat).
+  { induction t as [|c2 t [IH1 IH2]].
+    - split; [cbn; lia|]. intros c. rewrite conv_nl_eq1. destruct (c =? 13); cbn [List.length]; lia.
+    - split; [apply IH2|]. intros c. rewrite conv_nl_eq2. destruct (c =? 13).
+      + destruct (c2 =? 10); cbn [List.length]; [lia|]. specialize (IH2 c2). lia.
+      + cbn [List.length]. specialize (IH2 c2). lia. }
+  intros t. apply H.
+Qed.
+
+(* the words decodeToWriter writes for a text token whose text has no '&' *)
+Lemma text_words : forall t, Forall (fun c => c <> AMP) t -> blen t < MAXBUF ->
+  exists ws, cut_long (words (text_data KText t)) = (ws, false) /\ List.concat ws = strip t.
+Proof.
+  intros t Ht Hn. exists (words (text_data KText t)). unfold text_data, unescape.
+  rewrite (unesc_plain _ (conv_nl_noamp t Ht)). split.
+  - apply cut_long_short. eapply Forall_impl; [|apply words_len]. cbv beta. intros w Hw.
+    pose proof (conv_nl_len t). unfold blen, MAXBUF, TOOLONG in *. lia.
+  - rewrite words_concat. apply strip_conv_nl.
+Qed.
+
+(* ---- single steps ---- *)
+Lemma apply_nil : forall t a o, apply_toks t a o [] = {| tkz := t; active := a; out_rev := o; halt := None |}.
+Proof. reflexivity. Qed.
+
+Lemma step_txt : forall n tb a o c, n + 1 < MAXBUF -> c <> LT ->
+  step (mkb MTxt n tb a o) c = mkb MTxt (n + 1) (c :: tb) a o.
+Proof.
+  intros n tb a o c Hn Hc. unfold step, mkb, tk_step, tk. cbn [halt tkz tmd tcnt tbuf active out_rev].
   replace (MAXBUF <=? n + 1) with false by (symmetry; apply N.leb_gt; exact Hn).
-  unfold txt_on. cbn [md cnt active out_rev].
-  replace (c =? LT) with false by (symmetry; apply N.eqb_neq; exact Hc). reflexivity.
+  unfold txt_on. replace (c =? LT) with false by (symmetry; apply N.eqb_neq; exact Hc). reflexivity.
 Qed.
 
-Lemma step_txt_lt : forall n a o, n + 1 < MAXBUF -> step (mk MTxt n a o) LT = mk MLt (n + 1) a o.
+Lemma step_txt_lt : forall n tb a o, n + 1 < MAXBUF -> step (mkb MTxt n tb a o) LT = mkb MLt (n + 1) tb a o.
 Proof.
-  intros n a o Hn. unfold step, mk. cbn [md cnt active out_rev].
+  intros n tb a o Hn. unfold step, mkb, tk_step, tk. cbn [halt tkz tmd tcnt tbuf active out_rev].
   replace (MAXBUF <=? n + 1) with false by (symmetry; apply N.leb_gt; exact Hn).
   reflexivity.
 Qed.
 
-Lemma step_lt_slash : forall n a o, n + 1 < MAXBUF -> step (mk MLt n a o) SLASH = mk MEndOpen 2 a o.
+(* what decodeToWriter does with the text token that ends where a tag starts *)
+Definition flushed (a : bool) (tb : bytes) (o : list bytes) : dst -> Prop :=
+  fun s => s = apply_toks (tkz s) a o (flush KText tb).
+
+Lemma step_lt_slash : forall n tb a o, n + 1 < MAXBUF ->
+  step (mkb MLt n tb a o) SLASH = apply_toks (tk MEndOpen 2 []) a o (flush KText tb).
 Proof.
-  intros n a o Hn. unfold step, mk. cbn [md cnt active out_rev].
+  intros n tb a o Hn. unfold step, mkb, tk_step, tk. cbn [halt tkz tmd tcnt tbuf active out_rev].
   replace (MAXBUF <=? n + 1) with false by (symmetry; apply N.leb_gt; exact Hn).
   reflexivity.
 Qed.
 
-Lemma step_lt_p : forall n a o, n + 1 < MAXBUF ->
-  step (mk MLt n a o) 112 = mk (MTag false TgName [112] 112) 2 a o.
+Lemma step_lt_p : forall n tb a o, n + 1 < MAXBUF ->
+  step (mkb MLt n tb a o) 112 = apply_toks (tk (MTag false TgName [112] 112) 2 []) a o (flush KText tb).
 Proof.
-  intros n a o Hn. unfold step, mk. cbn [md cnt active out_rev].
+  intros n tb a o Hn. unfold step, mkb, tk_step, tk. cbn [halt tkz tmd tcnt tbuf active out_rev].
   replace (MAXBUF <=? n + 1) with false by (symmetry; apply N.leb_gt; exact Hn).
   reflexivity.
 Qed.
 
-Lemma run_text : forall t n a o, noLT t -> n + blen t < MAXBUF ->
-  run (mk MTxt n a o) t = mk MTxt (n + blen t) a (emit a t o).
+(* outside pre a text token is dropped *)
+Lemma apply_flush_inactive : forall t tb o, apply_toks t false o (flush KText tb) = st t false o.
+Proof. intros t [|c tb] o; reflexivity. Qed.
+
+(* inside pre its words are written *)
+Lemma apply_flush_active : forall t tb o ws,
+  cut_long (words (text_data KText (rev tb))) = (ws, false) ->
+  apply_toks t true o (flush KText tb) = st t true (rev ws ++ o).
 Proof.
-  induction t as [|c t IH]; intros n a o Hs Hn.
+  intros t tb o ws H. destruct tb as [|c tb].
+  - cbn in H. injection H as <-. reflexivity.
+  - unfold flush, apply_toks. cbn [dw_toks dw_tok]. rewrite rev_append_rev, app_nil_r. rewrite H.
+    cbn [w_end w_act w_words]. rewrite app_nil_r. rewrite rev_append_rev. reflexivity.
+Qed.
+
+Lemma run_text : forall t n tb a o, noLT t -> n + blen t < MAXBUF ->
+  run (mkb MTxt n tb a o) t = mkb MTxt (n + blen t) (rev t ++ tb) a o.
+Proof.
+  induction t as [|c t IH]; intros n tb a o Hs Hn.
   - cbn. unfold blen. cbn. rewrite N.add_0_r. reflexivity.
   - inversion Hs as [|? ? Hc Ht]; subst. rewrite blen_cons in *.
     rewrite run_cons.
     rewrite step_txt by (assumption || lia).
     rewrite IH by (assumption || lia).
-    cbn [emit]. f_equal. lia.
+    cbn [rev]. rewrite <- app_assoc. cbn [app]. f_equal. lia.
 Qed.
 
-Lemma run_open_pre : forall o, run (mk (MTag false TgName [112] 112) 2 false o) (bs "re>"%string) = mk MTxt 0 true o.
+Lemma run_open_pre : forall o, run (st (tk (MTag false TgName [112] 112) 2 []) false o) (bs "re>"%string) = mk MTxt 0 true o.
 Proof. intros o. vm_compute. reflexivity. Qed.
-Lemma run_close_pre : forall o, run (mk MEndOpen 2 true o) (bs "pre>"%string) = mk MTxt 0 false o.
+Lemma run_close_pre : forall o, run (st (tk MEndOpen 2 []) true o) (bs "pre>"%string) = mk MTxt 0 false o.
 Proof. intros o. vm_compute. reflexivity. Qed.
-Lemma run_boiler_start : run dinit boilerplate_start = mk MTxt 1 false [].
+Lemma run_boiler_start : run dinit boilerplate_start = mkb MTxt 1 [LF] false [].
 Proof. vm_compute. reflexivity. Qed.
 Lemma boiler_end_eq : boilerplate_end = LT :: SLASH :: bs "body>"%string ++ [LF] ++ bs "</html>"%string.
 Proof. vm_compute. reflexivity. Qed.
 Lemma run_boiler_end_tail : forall o,
-  run (mk MEndOpen 2 false o) (bs "body>"%string ++ [LF] ++ bs "</html>"%string) = mk MTxt 0 false o.
+  run (st (tk MEndOpen 2 []) false o) (bs "body>"%string ++ [LF] ++ bs "</html>"%string) = mk MTxt 0 false o.
 Proof. intros o. vm_compute. reflexivity. Qed.
 Lemma pre_open_eq : bs "<pre>"%string = LT :: 112 :: bs "re>"%string.
 Proof. vm_compute. reflexivity. Qed.
 Lemma pre_close_eq : bs "</pre>"%string = LT :: SLASH :: bs "pre>"%string.
 Proof. vm_compute. reflexivity. Qed.
 
-Lemma run_boiler_end : forall n o, n + 2 < MAXBUF ->
-  run (mk MTxt n false o) boilerplate_end = mk MTxt 0 false o.
+Lemma run_boiler_end : forall n tb o, n + 2 < MAXBUF ->
+  run (mkb MTxt n tb false o) boilerplate_end = mk MTxt 0 false o.
 Proof.
-  intros n o Hn. rewrite boiler_end_eq.
+  intros n tb o Hn. rewrite boiler_end_eq.
   rewrite !run_cons.
-  rewrite step_txt_lt by lia. rewrite step_lt_slash by lia. apply run_boiler_end_tail.
+  rewrite step_txt_lt by lia. rewrite step_lt_slash by lia. rewrite apply_flush_inactive.
+  apply run_boiler_end_tail.
 Qed.
 
-(* ---- documents: boilerplate, pre elements with arbitrary '<'-free text, '<'-free text between *)
+(* ---- documents: boilerplate, pre elements with arbitrary '<'- and '&'-free text, such text between ---- *)
 Definition seg_bytes (sg : bytes * bytes) : bytes := bs "<pre>"%string ++ fst sg ++ bs "</pre>"%string ++ snd sg.
 Definition doc_of (segs : list (bytes * bytes)) : bytes :=
   boilerplate_start ++ List.concat (map seg_bytes segs) ++ boilerplate_end.
+Definition noAMP (t : bytes) : Prop := Forall (fun c => c <> AMP) t.
 (* +2: the tokenizer reads two bytes of look-ahead ("</") into the text token's buffer *)
 Definition seg_ok (sg : bytes * bytes) : Prop :=
-  noLT (fst sg) /\ noLT (snd sg) /\ blen (fst sg) + 2 < MAXBUF /\ blen (snd sg) + 2 < MAXBUF.
+  noLT (fst sg) /\ noAMP (fst sg) /\ noLT (snd sg) /\ blen (fst sg) + 2 < MAXBUF /\ blen (snd sg) + 2 < MAXBUF.
 
-Lemma run_seg : forall t post n o, n + 2 < MAXBUF -> seg_ok (t, post) ->
-  run (mk MTxt n false o) (seg_bytes (t, post)) = mk MTxt (blen post) false (rev (strip t) ++ o).
+Definition words_cat (o : list bytes) : bytes := List.concat (rev o).
+
+Lemma run_seg : forall t post n tb o, n + 2 < MAXBUF -> seg_ok (t, post) ->
+  exists o', run (mkb MTxt n tb false o) (seg_bytes (t, post)) = mkb MTxt (blen post) (rev post) false o' /\
+             words_cat o' = words_cat o ++ strip t.
 Proof.
-  intros t post n o Hn (H1 & H2 & H3 & H4). cbn [fst snd] in *.
-  unfold seg_bytes. cbn [fst snd]. rewrite pre_open_eq, pre_close_eq.
-  cbn [app]. rewrite !run_cons.
-  rewrite step_txt_lt by lia. rewrite step_lt_p by lia.
-  rewrite run_app. rewrite run_open_pre.
-  rewrite run_app. rewrite run_text by (assumption || lia).
-  cbn [app]. rewrite !run_cons.
-  rewrite step_txt_lt by lia. rewrite step_lt_slash by lia.
-  rewrite run_app. rewrite run_close_pre.
-  rewrite run_text by (assumption || lia).
-  rewrite !emit_spec. rewrite N.add_0_l. reflexivity.
+  intros t post n tb o Hn (H1 & HA & H2 & H3 & H4). cbn [fst snd] in *.
+  destruct (text_words t HA ltac:(lia)) as (ws & Hws & Hcat).
+  exists (rev ws ++ o). split.
+  - unfold seg_bytes. cbn [fst snd]. rewrite pre_open_eq, pre_close_eq.
+    cbn [app]. rewrite !run_cons.
+    rewrite step_txt_lt by lia. rewrite step_lt_p by lia. rewrite apply_flush_inactive.
+    rewrite run_app. rewrite run_open_pre.
+    rewrite run_app. unfold mk. rewrite run_text by (assumption || lia).
+    cbn [app]. rewrite !run_cons.
+    rewrite step_txt_lt by lia. rewrite step_lt_slash by lia.
+    rewrite app_nil_r. rewrite (apply_flush_active _ (rev t) o ws) by (rewrite rev_involutive; exact Hws).
+    rewrite run_app. rewrite run_close_pre.
+    unfold mk. rewrite run_text by (assumption || lia).
+    rewrite N.add_0_l, app_nil_r. reflexivity.
+  - unfold words_cat. rewrite rev_app_distr, rev_involutive, concat_app, Hcat. reflexivity.
 Qed.
 
-Lemma strip_app : forall a b, strip (a ++ b) = strip a ++ strip b.
-Proof. intros. unfold strip. apply filter_app. Qed.
-
-Lemma run_segs : forall segs n o, n + 2 < MAXBUF -> Forall seg_ok segs ->
-  exists n', n' + 2 < MAXBUF /\
-    run (mk MTxt n false o) (List.concat (map seg_bytes segs)) =
-    mk MTxt n' false (rev (strip (List.concat (map fst segs))) ++ o).
+Lemma run_segs : forall segs n tb o, n + 2 < MAXBUF -> Forall seg_ok segs ->
+  exists n' tb' o', n' + 2 < MAXBUF /\
+    run (mkb MTxt n tb false o) (List.concat (map seg_bytes segs)) = mkb MTxt n' tb' false o' /\
+    words_cat o' = words_cat o ++ strip (List.concat (map fst segs)).
 Proof.
-  induction segs as [|[t post] segs IH]; intros n o Hn Hok.
-  - exists n. split; [assumption|]. reflexivity.
+  induction segs as [|[t post] segs IH]; intros n tb o Hn Hok.
+  - exists n, tb, o. split; [assumption|]. split; [reflexivity|]. cbn. rewrite app_nil_r. reflexivity.
   - inversion Hok as [|? ? Hs Hrest]; subst.
-    cbn [map List.concat]. rewrite run_app. rewrite run_seg by assumption.
-    destruct Hs as (_ & _ & _ & Hp). cbn [snd] in Hp.
-    destruct (IH (blen post) (rev (strip t) ++ o) Hp Hrest) as (n' & Hn' & E).
-    exists n'. split; [assumption|]. rewrite E. cbn [fst].
-    rewrite strip_app, rev_app_distr, <- app_assoc. reflexivity.
+    cbn [map List.concat]. rewrite run_app.
+    destruct (run_seg t post n tb o Hn Hs) as (o1 & E1 & C1). rewrite E1.
+    destruct Hs as (_ & _ & _ & _ & Hp). cbn [snd] in Hp.
+    destruct (IH (blen post) (rev post) o1 Hp Hrest) as (n' & tb' & o' & Hn' & E & C).
+    exists n', tb', o'. split; [assumption|]. split; [exact E|].
+    rewrite C, C1. cbn [fst]. rewrite strip_app, <- app_assoc. reflexivity.
 Qed.
+
+Lemma finish_quiet : forall o, finish (mk MTxt 0 false o) = (rev o, TEnd).
+Proof. intros o. unfold finish, mk, mkb. cbn. rewrite rev_append_rev, app_nil_r. reflexivity. Qed.
 
 Lemma scan_doc : forall segs, Forall seg_ok segs ->
   armor_scan (doc_of segs) = (strip (List.concat (map fst segs)), TEnd).
 Proof.
-  intros segs Hok. unfold armor_scan, doc_of.
+  intros segs Hok. unfold armor_scan, armor_words_of, doc_of.
   rewrite run_app, run_boiler_start. rewrite run_app.
-  destruct (run_segs segs 1 [] ltac:(unfold MAXBUF; lia) Hok) as (n' & Hn' & E).
-  rewrite E. rewrite run_boiler_end by assumption.
-  unfold finish, mk. cbn [md active out_rev pending emit].
-  rewrite rev_append_rev. rewrite !app_nil_r. rewrite rev_involutive. reflexivity.
+  destruct (run_segs segs 1 [LF] [] ltac:(unfold MAXBUF; lia) Hok) as (n' & tb' & o' & Hn' & E & C).
+  rewrite E. rewrite run_boiler_end by assumption. rewrite finish_quiet.
+  f_equal. exact C.
 Qed.
 
 Lemma decode_doc : forall segs p, bytes_ok p = true -> Forall seg_ok segs ->
@@ -191,6 +335,9 @@ Proof.
   repeat match goal with |- context [?a =? ?b] => destruct (N.eqb_spec a b); [lia|] end. reflexivity.
 Qed.
 
+Lemma armor_char_noamp : forall c, armor_char c -> c <> AMP.
+Proof. intros c H. unfold armor_char, PAD, VERSION in H. unfold AMP. lia. Qed.
+
 Definition seg_of (ws : list bytes) : bytes * bytes := (LF :: List.concat (map word_line ws), [LF]).
 
 Lemma element_seg : forall ws, element ws = seg_bytes (seg_of ws).
@@ -225,6 +372,16 @@ Proof.
   rewrite !Forall_app. split; [split|].
   - eapply Forall_impl; [|exact Hw]. intros c Hc. apply (armor_char_safe c Hc).
   - constructor; [unfold LF, LT; lia|constructor].
+  - apply IH. assumption.
+Qed.
+
+Lemma noAMP_words : forall ws, Forall (Forall armor_char) ws -> noAMP (List.concat (map word_line ws)).
+Proof.
+  induction ws as [|w ws IH]; intros H; [constructor|].
+  inversion H as [|? ? Hw Hr]; subst. cbn [map List.concat]. unfold word_line at 1, noAMP.
+  rewrite !Forall_app. split; [split|].
+  - eapply Forall_impl; [|exact Hw]. intros c Hc. apply (armor_char_noamp c Hc).
+  - constructor; [unfold LF, AMP; lia|constructor].
   - apply IH. assumption.
 Qed.
 
@@ -272,8 +429,9 @@ Qed.
 Lemma seg_of_ok : forall ws, Forall (Forall armor_char) ws ->
   Forall (fun w => (1 <= List.length w <= 32)%nat) ws -> (List.length ws <= 992)%nat -> seg_ok (seg_of ws).
 Proof.
-  intros ws Hc Hl Hn. unfold seg_ok, seg_of. cbn [fst snd]. split; [|split; [|split]].
+  intros ws Hc Hl Hn. unfold seg_ok, seg_of. cbn [fst snd]. split; [|split; [|split; [|split]]].
   - constructor; [unfold LF, LT; lia|]. apply noLT_words. assumption.
+  - constructor; [unfold LF, AMP; lia|]. apply noAMP_words. assumption.
   - constructor; [unfold LF, LT; lia|constructor].
   - assert (Hl' : Forall (fun w => (List.length w <= 32)%nat) ws)
       by (eapply Forall_impl; [|exact Hl]; cbv beta; intros; lia).
@@ -342,6 +500,11 @@ Proof.
   intros t H. eapply Forall_impl; [|exact H]. intros c Hc. cbv beta in Hc.
   intros ->. vm_compute in Hc. discriminate.
 Qed.
+Lemma ws_only_noAMP : forall t, ws_only t -> noAMP t.
+Proof.
+  intros t H. eapply Forall_impl; [|exact H]. intros c Hc. cbv beta in Hc.
+  intros ->. vm_compute in Hc. discriminate.
+Qed.
 Lemma ws_only_strip : forall t, ws_only t -> strip t = [].
 Proof.
   induction 1 as [|c t Hc Ht IH]; [reflexivity|]. cbn [strip filter]. rewrite Hc. cbn [negb]. exact IH.
@@ -353,16 +516,22 @@ Proof.
 Qed.
 Lemma chars_noLT : forall w, Forall armor_char w -> noLT w.
 Proof. intros w H. eapply Forall_impl; [|exact H]. intros c Hc. apply (armor_char_safe c Hc). Qed.
+Lemma chars_noAMP : forall w, Forall armor_char w -> noAMP w.
+Proof. intros w H. eapply Forall_impl; [|exact H]. intros c Hc. apply (armor_char_noamp c Hc). Qed.
 
 Lemma resep_text_facts : forall r, rseg_ws r -> Forall (Forall armor_char) (map fst (r_words r)) ->
-  noLT (resep_text r) /\ strip (resep_text r) = List.concat (map fst (r_words r)).
+  noLT (resep_text r) /\ noAMP (resep_text r) /\ strip (resep_text r) = List.concat (map fst (r_words r)).
 Proof.
   intros [lead wss post] (Hl & Hs & _) Hc. cbn [r_lead r_words r_post] in *. unfold resep_text. cbn [r_lead r_words].
-  unfold noLT. rewrite Forall_app, strip_app. rewrite (ws_only_strip lead Hl). cbn [app].
-  split; [split; [apply ws_only_noLT; exact Hl|]|].
+  unfold noLT, noAMP. rewrite !Forall_app, strip_app. rewrite (ws_only_strip lead Hl). cbn [app].
+  split; [split; [apply ws_only_noLT; exact Hl|]|split; [split; [apply ws_only_noAMP; exact Hl|]|]].
   - induction wss as [|[w s] wss IH]; [constructor|].
     inversion Hs; subst. inversion Hc; subst. cbn [map List.concat fst snd] in *.
     rewrite !Forall_app. repeat split; [apply chars_noLT; assumption|apply ws_only_noLT; assumption|].
+    apply IH; assumption.
+  - induction wss as [|[w s] wss IH]; [constructor|].
+    inversion Hs; subst. inversion Hc; subst. cbn [map List.concat fst snd] in *.
+    rewrite !Forall_app. repeat split; [apply chars_noAMP; assumption|apply ws_only_noAMP; assumption|].
     apply IH; assumption.
   - induction wss as [|[w s] wss IH]; [reflexivity|].
     inversion Hs; subst. inversion Hc; subst. cbn [map List.concat fst snd] in *.
@@ -382,51 +551,65 @@ Proof.
     apply (F (map fst (r_words r))). apply in_map_iff. exists r. split; [reflexivity|exact Hr]. }
   clear F. unfold resep_doc. apply decode_doc; [assumption| |].
   - rewrite Forall_forall in *. intros sg Hsg. apply in_map_iff in Hsg as (r & <- & Hr).
-    destruct (resep_text_facts r (Hws r Hr) (Hch r Hr)) as (N1 & _).
+    destruct (resep_text_facts r (Hws r Hr) (Hch r Hr)) as (N1 & N2 & _).
     destruct (Hfit r Hr) as (S1 & S2). destruct (Hws r Hr) as (_ & _ & W3).
     unfold seg_ok. cbn [fst snd]. repeat split; try assumption. apply ws_only_noLT; exact W3.
   - rewrite <- C. clear C Hfit Hp.
     induction rs as [|r rs IH]; [reflexivity|].
     inversion Hws; subst. inversion Hch; subst.
     cbn [map List.concat fst]. rewrite strip_app, concat_app. rewrite IH by assumption.
-    destruct (resep_text_facts r ltac:(assumption) ltac:(assumption)) as (_ & ->). reflexivity.
+    destruct (resep_text_facts r ltac:(assumption) ltac:(assumption)) as (_ & _ & ->). reflexivity.
 Qed.
 
 (* ---- over the limit: an error, never other data ---- *)
-Lemma run_dead : forall l s e, md s = MDead e -> run s l = s.
+Lemma run_dead : forall l s e, halt s = Some e -> run s l = s.
 Proof.
   induction l as [|c l IH]; intros s e H; [reflexivity|].
   rewrite run_cons. assert (E : step s c = s) by (unfold step; rewrite H; reflexivity).
   rewrite E. eapply IH; exact H.
 Qed.
 
-Lemma run_dead_md : forall l s e, md s = MDead e -> md (run s l) = MDead e.
-Proof. intros l s e H. rewrite (run_dead l s e H). exact H. Qed.
+Definition is_err (s : dst) : Prop := exists e, halt s = Some (TErr e).
 
-Lemma step_over_txt : forall n a o c, MAXBUF <= n + 1 -> md (step (mk MTxt n a o) c) = MDead EOversize.
+Lemma run_err : forall l s, is_err s -> is_err (run s l).
+Proof. intros l s [e H]. rewrite (run_dead l s _ H). exists e. exact H. Qed.
+
+(* the text token cut off by the buffer limit, then the ErrorToken: decodeToWriter returns an error *)
+Lemma dw_flush_over : forall a k tb, exists e, w_end (dw_toks a (flush k tb ++ [TkOver])) = Some (TErr e).
 Proof.
-  intros n a o c H. unfold step, mk. cbn [md cnt active out_rev].
-  replace (MAXBUF <=? n + 1) with true by (symmetry; apply N.leb_le; exact H). reflexivity.
-Qed.
-Lemma step_over_lt : forall n a o c, MAXBUF <= n + 1 -> md (step (mk MLt n a o) c) = MDead EOversize.
-Proof.
-  intros n a o c H. unfold step, mk. cbn [md cnt active out_rev].
-  replace (MAXBUF <=? n + 1) with true by (symmetry; apply N.leb_le; exact H). reflexivity.
+  intros a k [|c tb]; [exists EOversize; reflexivity|].
+  unfold flush. cbn [app dw_toks]. destruct a.
+  - cbn [dw_tok]. destruct (cut_long _) as [ws [|]]; cbn [w_end w_act w_words]; eexists; reflexivity.
+  - exists EOversize. reflexivity.
 Qed.
 
-Lemma text_over : forall t n a o rest, noLT t -> n < MAXBUF -> MAXBUF <= n + blen t + 2 ->
-  md (run (mk MTxt n a o) (t ++ LT :: SLASH :: rest)) = MDead EOversize.
+Lemma step_over_txt : forall n tb a o c, MAXBUF <= n + 1 -> is_err (step (mkb MTxt n tb a o) c).
 Proof.
-  induction t as [|c t IH]; intros n a o rest Hs Hn Hov.
+  intros n tb a o c H. unfold step, mkb, tk_step, tk. cbn [halt tkz tmd tcnt tbuf active out_rev].
+  replace (MAXBUF <=? n + 1) with true by (symmetry; apply N.leb_le; exact H).
+  cbn [is_text_mode kind_of pending push rev_append]. unfold is_err, apply_toks. cbn [halt].
+  apply dw_flush_over.
+Qed.
+Lemma step_over_lt : forall n tb a o c, MAXBUF <= n + 1 -> is_err (step (mkb MLt n tb a o) c).
+Proof.
+  intros n tb a o c H. unfold step, mkb, tk_step, tk. cbn [halt tkz tmd tcnt tbuf active out_rev].
+  replace (MAXBUF <=? n + 1) with true by (symmetry; apply N.leb_le; exact H).
+  cbn [is_text_mode kind_of pending push rev_append]. unfold is_err, apply_toks. cbn [halt].
+  apply dw_flush_over.
+Qed.
+
+Lemma text_over : forall t n tb a o rest, noLT t -> n < MAXBUF -> MAXBUF <= n + blen t + 2 ->
+  is_err (run (mkb MTxt n tb a o) (t ++ LT :: SLASH :: rest)).
+Proof.
+  induction t as [|c t IH]; intros n tb a o rest Hs Hn Hov.
   - cbn [app]. unfold blen in Hov. cbn [List.length] in Hov. rewrite run_cons.
     destruct (N.le_gt_cases MAXBUF (n + 1)) as [H1|H1].
-    + pose proof (step_over_txt n a o LT H1) as D. rewrite (run_dead _ _ _ D). exact D.
+    + apply run_err. apply step_over_txt. exact H1.
     + rewrite step_txt_lt by lia. rewrite run_cons.
-      pose proof (step_over_lt (n + 1) a o SLASH ltac:(lia)) as D.
-      rewrite (run_dead _ _ _ D). exact D.
+      apply run_err. apply step_over_lt. lia.
   - inversion Hs as [|? ? Hc Ht]; subst. rewrite blen_cons in Hov. cbn [app]. rewrite run_cons.
     destruct (N.le_gt_cases MAXBUF (n + 1)) as [H1|H1].
-    + pose proof (step_over_txt n a o c H1) as D. rewrite (run_dead _ _ _ D). exact D.
+    + apply run_err. apply step_over_txt. exact H1.
     + rewrite step_txt by assumption. apply IH; [assumption|lia|lia].
 Qed.
 
@@ -441,15 +624,15 @@ Lemma doc_over : forall segs1 t post segs2, Forall seg_ok segs1 -> noLT t -> MAX
   exists e, armor_decode (doc_of (segs1 ++ (t, post) :: segs2)) = DErr e.
 Proof.
   intros segs1 t post segs2 Hok Ht Hov.
-  assert (D : md (run dinit (doc_of (segs1 ++ (t, post) :: segs2))) = MDead EOversize).
+  assert (D : is_err (run dinit (doc_of (segs1 ++ (t, post) :: segs2)))).
   { unfold doc_of. rewrite run_app, run_boiler_start. rewrite map_app, concat_app. rewrite !run_app.
-    destruct (run_segs segs1 1 [] ltac:(unfold MAXBUF; lia) Hok) as (n' & Hn' & E). rewrite E.
+    destruct (run_segs segs1 1 [LF] [] ltac:(unfold MAXBUF; lia) Hok) as (n' & tb' & o' & Hn' & E & _). rewrite E.
     cbn [map List.concat]. rewrite run_app. unfold seg_bytes at 1. cbn [fst snd].
     rewrite pre_open_eq, pre_close_eq. cbn [app]. rewrite !run_cons.
-    rewrite step_txt_lt by lia. rewrite step_lt_p by lia. rewrite run_app, run_open_pre.
-    do 2 apply run_dead_md.
+    rewrite step_txt_lt by lia. rewrite step_lt_p by lia. rewrite apply_flush_inactive. rewrite run_app, run_open_pre.
+    do 2 apply run_err.
     apply text_over; [assumption|unfold MAXBUF; lia|lia]. }
-  unfold armor_decode, armor_scan, finish. rewrite D. apply decode_result_err.
+  destruct D as [e D]. unfold armor_decode, armor_scan, armor_words_of, finish. rewrite D. apply decode_result_err.
 Qed.
 
 Lemma resep_over : forall rs1 r rs2,
@@ -463,7 +646,7 @@ Proof.
   inversion Hwsr; subst. inversion Hchr; subst.
   apply doc_over.
   - rewrite Forall_forall in *. intros sg Hsg. apply in_map_iff in Hsg as (r0 & <- & Hr).
-    destruct (resep_text_facts r0 (Hws1 r0 Hr) (Hch1 r0 Hr)) as (N1 & _).
+    destruct (resep_text_facts r0 (Hws1 r0 Hr) (Hch1 r0 Hr)) as (N1 & N2 & _).
     destruct (Hfit r0 Hr) as (S1 & S2). destruct (Hws1 r0 Hr) as (_ & _ & W3).
     unfold seg_ok. cbn [fst snd]. repeat split; try assumption. apply ws_only_noLT; exact W3.
   - apply resep_text_facts; assumption.
